@@ -550,7 +550,7 @@ package ro
 // ---------------------------------------------------------------------------
 
 //@ operator MergeAll
-//@   props C05 C09 C04 C08
+//@   props C05 C09 C04 C08 C20
 //@   note live = number of inner sources subscribed and not yet completed; outerLive = 1 until the outer observable completes
 //@   ghost outerLive int = 1
 //@   ghost live int = 0
@@ -666,7 +666,7 @@ package ro
 //@   iteration ensures !called(chselect) ==> count(subscriberCtx.Done) == 1 && arg(chpoll, 0) == res(subscriberCtx.Done)
 
 //@ operator RepeatWith
-//@   props C15 C09 C04 C08
+//@   props C15 C09 C04 C08 C14
 //@   otherwise count == 0 : returns Empty()
 //@   alias attempt=source.SubscribeWithContext()
 //@   requires count >= 1
@@ -763,7 +763,7 @@ package ro
 
 //@ func Interval$1$1
 //@   note the ticking goroutine of Interval: value k is emitted on the k-th tick received, nothing is emitted without a tick
-//@   props C16 C09
+//@   props C16 C09 C20
 //@   binds destination ctx
 //@   calls CompleteWithContext Done NextWithContext
 //@   params -
@@ -1168,14 +1168,14 @@ package ro
 //@   on subscribe(ctx, destination) : emits callfn.factory(), made.SubscribeWithContext(ctx, destination)
 
 //@ operator MergeMapIWithContext
-//@   props C04 C05 C09 C08
+//@   props C04 C05 C09 C08 C20
 //@   note the projection stage: every value becomes the (context, observable) pair the user function returns for it, with the running index; the stage is flattened by MergeAll (see MergeMapIWithContext$1)
 //@   ghost n int = 0
 //@   inv i == n
 //@   on next(ctx, value) : emits Next(projection_0(ctx, value, n), projection_1(ctx, value, n)) ; n' = n + 1
 
 //@ func MergeMapIWithContext$1
-//@   props C04 C05
+//@   props C04 C05 C20
 //@   track call.MergeAll call.NewObservableWithContext callfn.ANY
 //@   ensures [inner-observables-are-merged|C04,C05] trace(call.MergeAll(), call.NewObservableWithContext(_), callfn.ANY(res(call.NewObservableWithContext)))
 
@@ -1330,7 +1330,7 @@ package ro
 
 //@ func Interval$1
 //@   note the subscribe function of Interval: one ticker of the configured period, nothing is emitted before the first tick
-//@   props C16
+//@   props C16 C20
 //@   binds destination interval
 //@   calls NewTicker recoverUnhandledError
 //@   params ctx destination
